@@ -4,6 +4,7 @@
   `CInstr.stepSpec`), and keeps all containers well formed.  Names live in `EasyMl.RC`.
 -/
 import EasyMl.Lemmas.RecordContainer
+import EasyMl.Lemmas.RecordContainerTape
 
 namespace EasyMl.RC
 open EasyMl EasyMl.Fn
@@ -164,6 +165,78 @@ theorem matmulTensor_eq_spec (a b : Cont R) (w : World R) (ha : a.WF) (hb : b.WF
             simp [hshape]
       · rw [if_pos hn]
         simp [Cont.matmulTensor, Cont.matmulTensorWith, hda, hdb, hn, Outcome.map]
+
+/-! ### the further instructions of a program -/
+
+theorem mem_set_of_getElem? {α : Type} {l : List α} {a : Nat} {x v : α} (h : l[a]? = some x) :
+    v ∈ l.set a v := by
+  have hlt : a < l.length := by
+    rcases Nat.lt_or_ge a l.length with h' | h'
+    · exact h'
+    · rw [List.getElem?_eq_none h'] at h; cases h
+  exact List.mem_of_getElem? (by rw [List.getElem?_set_self hlt])
+
+theorem swapElems_wf (c : Cont R) (i j : Nat) (hc : c.WF) : (c.swapElems i j).WF := by
+  unfold Cont.swapElems
+  cases hi : c.elems[i]? with
+  | none => exact hc
+  | some x =>
+    cases hj : c.elems[j]? with
+    | none => exact hc
+    | some y =>
+      refine ⟨by simpa using hc.length_eq, ?_, ?_⟩
+      · intro hnil
+        have : ((c.elems.set i y).set j x).length = 0 := by simp only at hnil; rw [hnil]; rfl
+        simp only [List.length_set] at this
+        exact hc.nonempty (List.eq_nil_of_length_eq_zero this)
+      · intro hh e he
+        have hx : x ∈ c.elems := List.mem_of_getElem? hi
+        have hy : y ∈ c.elems := List.mem_of_getElem? hj
+        rcases List.mem_or_eq_of_mem_set he with he | rfl
+        · rcases List.mem_or_eq_of_mem_set he with he | rfl
+          · exact hc.const_zero hh e he
+          · exact hc.const_zero hh _ hy
+        · exact hc.const_zero hh _ hx
+
+/-- a record of a well-formed container, as a 0-dimensional container -/
+theorem fromRecord_wf (c : Cont R) (hc : c.WF) (e : R × Nat) (he : e ∈ c.elems) :
+    (Cont.fromRecord (⟨e.1, c.history, e.2⟩ : Rec R)).WF := by
+  refine ⟨rfl, by simp [Cont.fromRecord], ?_⟩
+  intro hh x hx
+  simp only [Cont.fromRecord, List.mem_singleton] at hx hh
+  subst hx
+  exact hc.const_zero hh e he
+
+/-- `from_iter` of a container's own records: the container again, unless the shape is refused -/
+theorem fromIterTensor_self (c : Cont R) (hc : c.WF) :
+    Cont.fromIterTensor c.shape c.toRecs
+      = if validateDimensions c.shape c.elems.length = none then .ok c else .error .shape := by
+  simp only [Cont.fromIterTensor, toRecs_eq, collectComponents_recsOf c.history c.elems hc.nonempty]
+  cases validateDimensions c.shape c.elems.length <;> rfl
+
+/-! ### sound program states -/
+
+/-- the state of a program is sound: containers well formed, tapes well formed (C04's `Tape.WF`:
+    every entry names earlier positions), every stored position on its tape -/
+def SoundState (cs : List (Cont R)) (w : World R) : Prop :=
+  AllWF cs ∧ WorldWF w ∧ ∀ c ∈ cs, OnTape w c
+
+theorem soundState_append {cs : List (Cont R)} {w w' : World R} {c : Cont R} (h : SoundState cs w)
+    (hc : c.WF) (k : Keeps w c w') : SoundState (cs ++ [c]) w' := by
+  refine ⟨allWF_append h.1 hc, k.1, ?_⟩
+  intro x hx
+  simp only [List.mem_append, List.mem_singleton] at hx
+  rcases hx with hx | rfl
+  · exact (h.2.2 x hx).mono k.2.1
+  · exact k.2.2
+
+theorem soundState_set {cs : List (Cont R)} {w w' : World R} {c : Cont R} (h : SoundState cs w)
+    (a : Nat) (hc : c.WF) (k : Keeps w c w') : SoundState (cs.set a c) w' := by
+  refine ⟨allWF_set h.1 a hc, k.1, ?_⟩
+  intro x hx
+  rcases List.mem_or_eq_of_mem_set hx with hx | rfl
+  · exact (h.2.2 x hx).mono k.2.1
+  · exact k.2.2
 
 end History
 
